@@ -180,7 +180,54 @@ fn run(input: &Value) -> CaseOut {
     CaseOut { obs, coq, nontrivial: kind != "u8" }
 }
 
+//------------ stream `big`: records too large to be written out as Coq terms ------------------------------------
+//
+// A repository state whose delta map has more entries than the decoder's pre-allocation limit (65536) is 2.6 MB;
+// coqc cannot type-check a case term of that size.  The round trip is made on the implementation and compared in
+// Rust; Coq gets the digest (sizes, counts, the equality verdict) and judges it.  Oracle only.
+
+fn gen_big(_rng: &mut Rng, tier: &str) -> Vec<(String, Value)> {
+    let mut v = Vec::new();
+    let ns: Vec<u64> = if tier == "thorough" { vec![65535, 65536, 65537, 65538, 131072, 131073, 200000] } else { vec![65535, 65536, 65537, 131073] };
+    for n in ns { for kind in ["map", "state"] { v.push((format!("big.{}", kind), json!({"kind": kind, "n": n}))); } }
+    v
+}
+
+fn run_big(input: &Value) -> CaseOut {
+    let kind = input["kind"].as_str().unwrap();
+    let n = input["n"].as_u64().unwrap();
+    let m: Vec<Value> = (0..n).map(|i| { let mut h = [0u8; 32]; h[..8].copy_from_slice(&(i.wrapping_mul(0x9E37_79B9_7F4A_7C15)).to_be_bytes()); json!([7 + i * 3, hex(&h)]) }).collect();
+    let value = if kind == "map" { json!(m) } else { json!({
+        "rpki_notify": "https://rrdp.example.net/notification.xml", "session": hex(&[7u8; 16]), "serial": 7 + n * 3,
+        "updated_ts": 1700000000, "best_before_ts": 1700003600, "last_modified_ts": 1699999999, "etag": hex(b"W/\"abc\""), "delta_state": m}) };
+    let rest = vec![0xAAu8, 0xBB, 0xCC];
+    let (enc, val) = encode_impl(kind, &value);
+    let (enc_len, dec) = match &enc {
+        Ok(e) => { let mut data = e.clone(); data.extend_from_slice(&rest);
+                   (e.len() as u64, catch_unwind(AssertUnwindSafe(|| decode_impl(kind, &data))).unwrap_or(Dec::Panic("panic".into()))) }
+        Err(_) => (0, Dec::Other("not encoded".into())),
+    };
+    let entries = |v: &Val| -> u64 { match v { Val::Map(m) => m.len() as u64, Val::State { deltas, .. } => deltas.len() as u64, _ => 0 } };
+    let (dec_ok, dec_entries, rest_len, equal) = match &dec {
+        Dec::Ok(v, r) => {
+            // a map comes back in the hash map's iteration order: compare as sets of entries
+            let canon = |v: &Val| -> Val { match v.clone() {
+                Val::Map(mut m) => { m.sort(); Val::Map(m) }
+                Val::State { notify, session, serial, updated, best_before, last_modified, etag, mut deltas } => {
+                    deltas.sort(); Val::State { notify, session, serial, updated, best_before, last_modified, etag, deltas } }
+                x => x } };
+            (true, entries(v), r.len() as u64, canon(v) == canon(&val) && *r == rest)
+        }
+        _ => (false, 0, 0, false),
+    };
+    let obs = json!({"encoded_len": enc_len, "decoded": dec_ok, "entries_read_back": dec_entries, "rest_len": rest_len, "equal": equal});
+    let coq = format!("{{| b_state := {}; b_n := {}; b_rest := {}; i_enc_len := {}; i_dec_ok := {}; i_entries := {}; i_rest := {}; i_equal := {} |}}",
+        coq_bool(kind == "state"), n, rest.len(), enc_len, coq_bool(dec_ok), dec_entries, rest_len, coq_bool(equal));
+    CaseOut { obs, coq, nontrivial: n > 65536 }
+}
+
 fn main() {
     std::panic::set_hook(Box::new(|_| {}));
+    if std::env::var("C28_STREAM").as_deref() == Ok("big") { drive(gen_big, run_big); return }
     drive(gen, run)
 }
